@@ -1,6 +1,7 @@
 import CopVerif.Real.ClaytonDeriv
 import CopVerif.Real.GumbelDeriv
 import CopVerif.Real.Frank
+import CopVerif.Real.Volume
 /-!
 # C07 — Copula density and conditional CDF are the derivatives of the CDF
 
@@ -167,6 +168,44 @@ with `frank_pdf_is_dh_du` this is the rectangle-volume clause, one integral at a
 theorem frank_h_integrates_to_cdf {θ u : ℝ} (hθ : θ ≠ 0) (hu : 0 ≤ u) (hu1 : u ≤ 1) (a b : ℝ) :
     ∫ t in a..b, Gen.Frank.hRow θ u t = Gen.Frank.cdfRow θ u b - Gen.Frank.cdfRow θ u a := by
   simp only [Frank.bridge_hRow, Frank.bridge_cdfRow]; exact Frank.integral_h_sub hθ hu hu1 a b
+
+/-! ## The density integrates over any rectangle to that rectangle's C-volume -/
+
+theorem frank_pdf_integrates_to_volume {θ u₁ u₂ : ℝ} (hθ : θ ≠ 0) (h1 : 0 ≤ u₁) (h1' : u₁ ≤ 1)
+    (h2 : 0 ≤ u₂) (h2' : u₂ ≤ 1) (v₁ v₂ : ℝ) :
+    ∫ t in v₁..v₂, (∫ s in u₁..u₂, Gen.Frank.pdfRow θ s t)
+      = Gen.Frank.cdfRow θ u₂ v₂ - Gen.Frank.cdfRow θ u₂ v₁ - Gen.Frank.cdfRow θ u₁ v₂
+        + Gen.Frank.cdfRow θ u₁ v₁ := by
+  simp only [Frank.bridge_pdfRow, Frank.bridge_cdfRow]
+  exact Frank.integral_c_rect hθ h1 h1' h2 h2' v₁ v₂
+
+/-- Clayton, on the closed unit square (the singular edges included through the code's own
+boundary branch `C(0,v) = C(u,0) = 0`). -/
+theorem clayton_pdf_integrates_to_volume {θ u₁ u₂ v₁ v₂ : ℝ} (hθ : 0 < θ) (h1 : 0 ≤ u₁)
+    (h1' : u₁ ≤ 1) (h2 : 0 ≤ u₂) (h2' : u₂ ≤ 1) (hv₁ : 0 ≤ v₁) (hv₂ : 0 ≤ v₂) :
+    ∫ t in v₁..v₂, (∫ s in u₁..u₂, Gen.Clayton.pdfRow θ s t)
+      = Gen.Clayton.cdfRow θ u₂ v₂ - Gen.Clayton.cdfRow θ u₂ v₁ - Gen.Clayton.cdfRow θ u₁ v₂
+        + Gen.Clayton.cdfRow θ u₁ v₁ := by
+  simp only [Clayton.bridge_pdfRow, Clayton.bridge_cdfRow]
+  exact Clayton.integral_c_rect hθ h1 h1' h2 h2' hv₁ hv₂
+
+/-- Gumbel, every θ ≥ 1, rectangles inside `(0,1)×(0,1]` (closed form of the density). -/
+theorem gumbel_pdf_integrates_to_volume {θ u₁ u₂ v₁ v₂ : ℝ} (hθ : 1 ≤ θ) (h1 : 0 < u₁) (h1' : u₁ < 1)
+    (h2 : 0 < u₂) (h2' : u₂ < 1) (hv₁ : 0 < v₁) (hv₁' : v₁ ≤ 1) (hv₂ : 0 < v₂) (hv₂' : v₂ ≤ 1) :
+    ∫ t in v₁..v₂, (∫ s in u₁..u₂, Gumbel.c θ s t)
+      = Gen.Gumbel.cdfRow θ u₂ v₂ - Gen.Gumbel.cdfRow θ u₂ v₁ - Gen.Gumbel.cdfRow θ u₁ v₂
+        + Gen.Gumbel.cdfRow θ u₁ v₁ := by
+  simp only [Gumbel.bridge_cdfRow]
+  exact Gumbel.integral_c_rect_of_pos hθ h1 h1' h2 h2' hv₁ hv₁' hv₂ hv₂'
+
+/-- Total mass 1 for all three families. -/
+theorem pdf_total_mass :
+    (∀ θ : ℝ, θ ≠ 0 → ∫ t in (0:ℝ)..1, (∫ s in (0:ℝ)..1, Gen.Frank.pdfRow θ s t) = 1) ∧
+    (∀ θ : ℝ, 0 < θ → ∫ t in (0:ℝ)..1, (∫ s in (0:ℝ)..1, Gen.Clayton.pdfRow θ s t) = 1) ∧
+    (∀ θ : ℝ, 1 ≤ θ → ∫ t in (0:ℝ)..1, (∫ s in (0:ℝ)..1, Gumbel.c θ s t) = 1) := by
+  refine ⟨fun θ h => ?_, fun θ h => ?_, fun θ h => Gumbel.integral_c_unit_square h⟩
+  · simp only [Frank.bridge_pdfRow]; exact Frank.integral_c_unit_square h
+  · simp only [Clayton.bridge_pdfRow]; exact Clayton.integral_c_unit_square h
 
 /-! ## log_probability_density -/
 
